@@ -5,7 +5,10 @@
 //   mo   <seed> <L|-1 default> <append 0/1> <nsub> <nwrites> <maxlen> <flags>
 //        flags: 1 prefix given with trailing '/', 2 pre-existing files, 4 some writes are
 //        issued from inside a handler (typed arguments and stream manipulators are always among the writes), 8 second generation on the same prefix (same modes),
-//        16 the prefix directory lies below directories that do not exist yet, 32 only flat subpaths (files directly in the prefix)
+//        16 the prefix directory lies below directories that do not exist yet, 32 only flat subpaths (files directly in the prefix),
+//        64 subpaths of total length 253..257
+//   mo2  <seed> <order 0|1> <nwrites>         two communicators (world; world split n-1 + 1), a multi_output on each, same subpaths
+//   many <nobjects>                           > 65536 output objects, the first still alive (thorough tier)
 //   day  <seed> <L> <nwrites> <ts,ts,...>      daily_output, timestamps steered by the check
 //   ser  <kind> <seed> <nitems> <flags>
 //        kind: map multimap set multiset bag cset mapcount bagd (bag<double>) bagpd (bag<pair<int,double>>) mapd (map<string,double>)
@@ -63,7 +66,9 @@ static std::string tmpdir() { const char* d = getenv("SIMMPI_TMP"); return d ? d
 // a line: any bytes except '\n'; lengths steered around the buffer length
 static std::string gen_line(hc::rng& g, long L, long maxlen) {
   size_t len;
-  switch (g.below(8)) {
+  switch (g.below(10)) {
+    case 6: len = 253 + g.below(5); break;                                  // around a one-byte length
+    case 7: len = (size_t)maxlen - (maxlen > 0 ? g.below(2) : 0); break;    // maxlen-1 / maxlen (65535 / 65536 in the thorough tier)
     case 0: len = 0; break;
     case 1: len = 1; break;
     case 2: len = (L > 0 && L < 100000) ? (size_t)L - 1 : 3; break;      // exactly fills the buffer with its '\n'
@@ -83,9 +88,16 @@ static std::string gen_line(hc::rng& g, long L, long maxlen) {
 }
 
 // subpaths: files f<i> below random chains of directories d<j> (a file name never equals a directory name)
-static std::vector<std::string> gen_subpaths(hc::rng& g, long n, bool flat = false) {
+static std::vector<std::string> gen_subpaths(hc::rng& g, long n, bool flat = false, bool longnames = false) {
   std::vector<std::string> v;
   for (long i = 0; i < n; ++i) {
+    if (longnames) {   // total subpath length 253..257, path components below NAME_MAX
+      size_t target = 253 + (size_t)(i % 5);
+      std::string p = "d" + std::to_string(i) + std::string(120, 'x') + "/f" + std::to_string(i);
+      p += std::string(target - p.size(), 'y');
+      v.push_back(p);
+      continue;
+    }
     std::string p;
     size_t depth = flat ? 0 : g.below(4);
     for (size_t k = 0; k < depth; ++k) p += "d" + std::to_string(g.below(3)) + "/";
@@ -115,7 +127,7 @@ static int run_mo(ygm::comm& world, int argc, char** argv) {
   hc::rng shared(seed);
   std::string root = tmpdir() + "/mo" + ((flags & 16) ? "/deep/er" : "");
   std::string prefix = root + ((flags & 1) ? "/" : "");
-  auto subs = gen_subpaths(shared, nsub, flags & 32);
+  auto subs = gen_subpaths(shared, nsub, flags & 32, flags & 64);
   if (flags & 2) {   // pre-existing content: some of the subpaths, plus one file nobody writes to
     std::vector<std::pair<std::string, std::string>> olds;
     for (size_t i = 0; i < subs.size(); ++i)
@@ -197,6 +209,60 @@ static int run_mo(ygm::comm& world, int argc, char** argv) {
     if (world.rank0()) dump_tree(root);
     world.cf_barrier();
   }
+  return 0;
+}
+
+// two communicators of different size in one process (world of n; split into ranks 0..n-2 and rank n-1), a multi_output on
+// each, the same subpath names on both, writes interleaved; order 0: world objects first, 1: sub-communicator objects first
+static int run_mo2(ygm::comm& world, int argc, char** argv) {
+  uint64_t seed = strtoull(argv[2], 0, 10); int order = atoi(argv[3]); long nwrites = atol(argv[4]);
+  int grp = world.rank() < world.size() - 1 ? 0 : 1;
+  MPI_Comm subc; MPI_Comm_split(MPI_COMM_WORLD, grp, world.rank(), &subc);
+  {
+    ygm::comm sub(subc);
+    hc::rng shared(seed), mine(seed * 1000003ULL + 7919ULL * (uint64_t)world.rank() + 1);
+    auto subs = gen_subpaths(shared, 6);
+    std::string rootW = tmpdir() + "/mo2w", rootS = tmpdir() + (grp == 0 ? "/mo2s" : "/mo2t");
+    std::unique_ptr<ygm::io::multi_output<>> moW, moS;
+    if (order == 0) { moW.reset(new ygm::io::multi_output<>(world, rootW, 16, false)); moS.reset(new ygm::io::multi_output<>(sub, rootS, 16, false)); }
+    else { moS.reset(new ygm::io::multi_output<>(sub, rootS, 16, false)); moW.reset(new ygm::io::multi_output<>(world, rootW, 16, false)); }
+    for (long i = 0; i < nwrites; ++i) {
+      const std::string& sp = subs[mine.below(subs.size())];
+      std::string line = gen_line(mine, 16, 24);
+      bool onW = (order == 0) ? (i % 3 != 2) : (i % 3 == 2);
+      if (mine.below(4) == 0) onW = !onW;
+      if (onW) { moW->async_write_line(sp, line); hc::out("w2 W " + hex(sp) + " " + hex(line)); }
+      else { moS->async_write_line(sp, line); hc::out(std::string("w2 ") + (grp == 0 ? "S" : "T") + " " + hex(sp) + " " + hex(line)); }
+    }
+    if (order == 0) { moS.reset(); moW.reset(); } else { moW.reset(); moS.reset(); }
+    world.cf_barrier();
+    if (world.rank0()) { hc::out("tree W"); dump_tree(rootW); hc::out("tree S"); dump_tree(tmpdir() + "/mo2s"); hc::out("tree T"); dump_tree(tmpdir() + "/mo2t"); }
+    world.cf_barrier();
+  }
+  MPI_Comm_free(&subc);
+  return 0;
+}
+
+// more than 65536 output objects over the life of the process, the first one still alive (thorough tier)
+static int run_many(ygm::comm& world, int argc, char** argv) {
+  long nobj = atol(argv[2]);
+  std::string root = tmpdir() + "/many";
+  {
+    ygm::io::multi_output<> first(world, root + "/first", 8, false);
+    for (long i = 0; i < nobj; ++i) {
+      if (i % 2) { ygm::io::multi_output<> mo(world, root + "/tmp", 8, true); if (i % 4096 == 1) { mo.async_write_line("t", "tmp line"); hc::out("w " + hex("tmp/t") + " " + hex("tmp line")); } }
+      else { ygm::io::daily_output<> d(world, root + "/day", 8, true); if (i % 4096 == 0) { d.async_write_line(86400ULL * 365, "day line"); hc::out("w " + hex("day/1971/1/1") + " " + hex("day line")); } }
+    }
+    ygm::io::multi_output<> last(world, root + "/last", 8, false);
+    for (int i = 0; i < 5; ++i) {
+      std::string l = "line " + std::to_string(world.rank()) + "." + std::to_string(i);
+      first.async_write_line("a/f", "F" + l); hc::out("w " + hex("first/a/f") + " " + hex("F" + l));
+      last.async_write_line("a/f", "L" + l); hc::out("w " + hex("last/a/f") + " " + hex("L" + l));
+    }
+  }
+  world.cf_barrier();
+  if (world.rank0()) dump_tree(root);
+  world.cf_barrier();
   return 0;
 }
 
@@ -522,6 +588,8 @@ extern "C" int sim_main(int argc, char** argv) {
   std::string mode = argc > 1 ? argv[1] : "";
   if (mode == "mo") return run_mo(world, argc, argv);
   if (mode == "day") return run_day(world, argc, argv);
+  if (mode == "mo2") return run_mo2(world, argc, argv);
+  if (mode == "many") return run_many(world, argc, argv);
   if (mode == "ser") return run_ser(world, argc, argv);
   if (mode == "tok") return run_tok(world, argc, argv);
   if (mode == "leak") return run_leak(world, argc, argv);
